@@ -10,6 +10,7 @@ import (
 	"net/url"
 	"sort"
 	"strconv"
+	"strings"
 
 	"golang.org/x/tools/go/ssa"
 )
@@ -286,4 +287,27 @@ func init() {
 		}
 		return w.tc.Str(""), false
 	}
+}
+
+func init() {
+	str2 := func(f func(a, b string) Value) stubFn {
+		return func(w *Worker, s *State, fr *Frame, fn *ssa.Function, a []Value, d int) (Value, bool) {
+			return f(w.concStr(a[0], "string argument of "+fn.Name()), w.concStr(a[1], "string argument of "+fn.Name())), false
+		}
+	}
+	var tcOf *Worker
+	_ = tcOf
+	stubs["strings.HasPrefix"] = func(w *Worker, s *State, fr *Frame, fn *ssa.Function, a []Value, d int) (Value, bool) {
+		return w.tc.Bool(strings.HasPrefix(w.concStr(a[0], "strings.HasPrefix arg"), w.concStr(a[1], "strings.HasPrefix arg"))), false
+	}
+	stubs["strings.HasSuffix"] = func(w *Worker, s *State, fr *Frame, fn *ssa.Function, a []Value, d int) (Value, bool) {
+		return w.tc.Bool(strings.HasSuffix(w.concStr(a[0], "strings.HasSuffix arg"), w.concStr(a[1], "strings.HasSuffix arg"))), false
+	}
+	stubs["strings.Contains"] = func(w *Worker, s *State, fr *Frame, fn *ssa.Function, a []Value, d int) (Value, bool) {
+		return w.tc.Bool(strings.Contains(w.concStr(a[0], "strings.Contains arg"), w.concStr(a[1], "strings.Contains arg"))), false
+	}
+	stubs["strings.TrimPrefix"] = func(w *Worker, s *State, fr *Frame, fn *ssa.Function, a []Value, d int) (Value, bool) {
+		return w.tc.Str(strings.TrimPrefix(w.concStr(a[0], "strings.TrimPrefix arg"), w.concStr(a[1], "strings.TrimPrefix arg"))), false
+	}
+	_ = str2
 }
